@@ -130,6 +130,16 @@ INVALID = [
 ]
 
 
+# every sign pattern of the four sizes with at least one non-positive (two negative sizes have a
+# positive ratio and a positive product; a zero next to a negative one divides by zero)
+_SIZES = (-3, -1, -0.5, 0, 0.0, 1, 2.5, 10)
+_fmt = lambda v: repr(v)                                # pylint: disable=unnecessary-lambda-assignment
+INVALID += [(f"{mx} 1 {_fmt(w)} {_fmt(h)}", par, dw, dh)
+            for w, h, dw, dh in itertools.product(_SIZES, repeat=4)
+            if min(w, h, dw, dh) <= 0
+            for mx, par in ((0, None), (-4, "none"), (2, "xMaxYMin slice"), (0, "xMinYMax meet"))]
+
+
 # every way SVG lets a number be written (leading '.', explicit '+', trailing '.', exponents)
 SPELLED = [(".5", 0.5), ("-.25", -0.25), ("+3", 3), ("5.", 5), ("1e1", 10), ("2.5E+1", 25),
            ("1e-1", 0.1), ("+.5e1", 5), ("-0", 0), ("00012.50", 12.5), ("4E0", 4)]
